@@ -57,6 +57,8 @@ def _model(eng, focus, name_len, res_len, serial_max=10 ** 7 - 1):
     if "radius" in focus:
         m["radius"] = eng.real("radius")
         eng.assume(And(m["radius"] >= 0, m["radius"] < 1000))
+    if "blankchain" in focus:
+        m["chain"] = ""  # waters / CHARMM-style records without a chain identifier
     if eng.symbolic:
         if "name" in focus:
             m["name"] = strs.sym_name(eng, "name", name_len, ALPHA_NAME)
@@ -173,6 +175,7 @@ def h_roundtrip(eng, focus, rtype, ws, kc, name_len=2, res_len=3, serial_max=10 
     atom.serial, atom.name, atom.res_name = m["serial"], m["name"], m["res_name"]
     atom.chain_id, atom.res_seq, atom.ins_code = m["chain"], m["res_seq"], m["ins"]
     atom.x, atom.y, atom.z, atom.ffcharge, atom.radius = m["x"], m["y"], m["z"], m["charge"], m["radius"]
+    atom.seg_id, atom.element, atom.occupancy, atom.temp_factor = "SOLV", "C", 1.0, 20.0  # columns of the input record that are no PQR fields
 
     eng.derived["has_ins"] = len(m["ins"]) > 0
     ch = m["chain"]
@@ -291,6 +294,7 @@ FOCI_QUICK = [
     ("z", "charge"),
     ("charge", "radius"),
     ("name", "res_name"),
+    ("blankchain", "res_seq"),
 ]
 FOCI_THOROUGH = FOCI_QUICK + [("serial", "name"), ("res_seq", "x"), ("y", "z"), ("ins", "x"), ("chain",), ("radius",), ("res_name", "chain", "res_seq")]
 
